@@ -209,9 +209,9 @@ pub enum SecurityKeyRetiredTrigger {
 #[derive(Builder, Debug, Clone, Serialize, Deserialize, PartialEq, Eq)]
 #[builder(setter(into, strip_option), build_fn(private, name = "fallible_build"))]
 pub struct TransportVersionInformation {
-    #[serde(skip_serializing_if = "Vec::is_empty")]
+    #[serde(default, skip_serializing_if = "Vec::is_empty")]
     server_versions: Vec<QuicVersion>,
-    #[serde(skip_serializing_if = "Vec::is_empty")]
+    #[serde(default, skip_serializing_if = "Vec::is_empty")]
     client_versions: Vec<QuicVersion>,
     chosen_version: Option<QuicVersion>,
 }
@@ -335,7 +335,7 @@ pub struct TransportPacketSent {
 
     /// only if header.packet_type === "version_negotiation"
     #[builder(default)]
-    #[serde(skip_serializing_if = "Vec::is_empty")]
+    #[serde(default, skip_serializing_if = "Vec::is_empty")]
     supported_versions: Vec<QuicVersion>,
 
     #[builder(default)]
@@ -382,7 +382,7 @@ pub struct TransportPacketReceived {
 
     /// only if header.packet_type === "version_negotiation"
     #[builder(default)]
-    #[serde(skip_serializing_if = "Vec::is_empty")]
+    #[serde(default, skip_serializing_if = "Vec::is_empty")]
     supported_versions: Vec<QuicVersion>,
 
     #[builder(default)]
@@ -701,7 +701,7 @@ pub struct RecoveryParametersSet {
     /// Additionally, this event can contain any number of unspecified fields
     /// to support different recovery approaches.
     #[builder(default)]
-    #[serde(flatten, skip_serializing_if = "HashMap::is_empty")]
+    #[serde(flatten, default, skip_serializing_if = "HashMap::is_empty")]
     custom_fields: HashMap<String, serde_json::Value>,
 }
 
@@ -747,7 +747,7 @@ pub struct RecoveryMetricsUpdated {
     /// to support different recovery approaches.
     #[builder(default)]
     #[serde(flatten)]
-    #[serde(skip_serializing_if = "HashMap::is_empty")]
+    #[serde(default, skip_serializing_if = "HashMap::is_empty")]
     custom_fields: HashMap<String, serde_json::Value>,
 }
 
